@@ -244,7 +244,8 @@ Proof.
   - change (ast_eqb ASTSlice ASTSlice) with true in H. cbn iota in H.
     apply bind_ok_inv in H as [[r i1] [Hr H]]. cbn beta iota in H. inversion H; subst.
     destruct (rhs_cases r (parseProjectionRHS_shape _ _ _ _ Hr)) as [rr [-> Hrr]].
-    exists (ESlice l a b c rr). split; [reflexivity|]. cbn [sem_ok]. fold (ook l) (rok rr).
+    exists (ESlice l a b (option_map Some c) rr). split; [destruct c; reflexivity|]. cbn [sem_ok]. fold (ook l) (rok rr).
+    assert (cjoin (option_map Some c) = c) as -> by (destruct c; reflexivity).
     rewrite Hlo, Ha, Hb, Hc, Hrr. reflexivity.
 Qed.
 
